@@ -48,15 +48,20 @@ class _Sink(logging.Handler):
 
 
 def install_log_sink() -> None:
-    """Capture everything the package logs; keep it away from the root stderr handler that
-    ``logging.basicConfig()`` in chart.py installs."""
+    """Capture everything that is logged in this (simulator) process, whatever the logger is
+    called, and keep it away from the stderr handler that ``logging.basicConfig()`` in chart.py
+    installs on the root logger."""
     global _sink_installed
     if _sink_installed:
         return
+    root = logging.getLogger()
+    for h in list(root.handlers):
+        root.removeHandler(h)
+    root.addHandler(_Sink())
+    if root.level > logging.WARNING or root.level == logging.NOTSET:
+        root.setLevel(logging.WARNING)
     lg = logging.getLogger("chartparse")
-    lg.propagate = False
-    lg.setLevel(logging.DEBUG)
-    lg.addHandler(_Sink())
+    lg.propagate = True
     _sink_installed = True
 
 
